@@ -635,9 +635,46 @@ func TestC18(t *testing.T) {
 	})
 }
 
+// c18ColdStart is the first script of every -race process: one packet of EVERY kind (and its
+// encoding), every operation on each of them, by 8 goroutines, before anything in the package
+// has been called in this process. Whatever the package initialises lazily per type or per
+// operation is therefore first used by several goroutines that share no synchronisation.
+func c18ColdStart(seed int) c18Script {
+	kinds := append(append([]m.Kind(nil), gen.LeafKinds...), m.KCOMPOUND)
+	c := c18Script{Procs: 16}
+	for i, k := range kinds {
+		k := k
+		p := rapid.Custom(func(rt *rapid.T) m.Packet { return gen.PacketOf(rt, k) }).Example(seed*64 + i)
+		shrinkBig(p)
+		c.Shared = append(c.Shared, p)
+		if e, err := m.Encode(c06Readable(p), &m.EncOpts{D: gen.PionDialect}); err == nil && len(e.B) <= 4096 {
+			c.Buffers = append(c.Buffers, e.B)
+		}
+	}
+	const G = 8
+	for g := 0; g < G; g++ {
+		c.Own = append(c.Own, c.Shared)
+		var ops []c18Target
+		for i := range kinds {
+			idx := (i + g*3) % len(kinds)
+			for _, op := range c18Ops {
+				ops = append(ops, c18Target{Op: op, Shared: g%2 == 0, Idx: idx})
+			}
+		}
+		c.Ops = append(c.Ops, ops)
+	}
+	return c
+}
+
 // (B) schedules: generated scripts under the race detector
 func testC18Schedules(t *testing.T) {
 	opsPer := harness.Scale(60, 300)
+	cold := c18ColdStart(int(harness.SeedFor(1811) % 1000))
+	writeCurrent(subC18B.Name, cold)
+	harness.Eval(subC18B.Name, 1)
+	harness.Class("script-cold-start-all-kinds", 1)
+	harness.NonTrivialHash(harness.Hash(cold.Ops))
+	subC18B.Check(t, cold)
 	harness.RapidCheck(t, harness.Scale(8, 80), 181, func(rt *rapid.T) {
 		c := genC18Script(rt, opsPer)
 		writeCurrent(subC18B.Name, c)
